@@ -93,6 +93,21 @@ type Deviations struct {
 	// LeadingOptionalMatchYieldsNoRow: a query that starts with OPTIONAL MATCH and matches nothing yields no row
 	// instead of one row of nulls.
 	LeadingOptionalMatchYieldsNoRow bool
+	// OptionalMatchNullBindingLosesMatch: the left join of OPTIONAL MATCH compares every carried binding with =, so a
+	// row in which an earlier OPTIONAL MATCH left a null never joins its matches and is extended with nulls.
+	OptionalMatchNullBindingLosesMatch bool
+	// OptionalMatchInnerJoinsLeadingSteps: of an OPTIONAL MATCH with several relationship steps only the last step is
+	// left-joined; the leading steps are inner-joined to the incoming rows.
+	OptionalMatchInnerJoinsLeadingSteps bool
+	// MultiStepOptionalMatchIsPlainMatch: an OPTIONAL MATCH with several relationship steps behaves like MATCH (the
+	// translation without lowerings filters the leading expansion on the existence of the last step).
+	MultiStepOptionalMatchIsPlainMatch bool
+	// RegexMatchIsUnanchored: =~ succeeds when the pattern matches anywhere in the string (PostgreSQL's ~) instead of
+	// the whole string.
+	RegexMatchIsUnanchored bool
+	// QuantifierPredicateNullCountsAsFalse: inside any / all / none / single an element whose predicate is null counts
+	// as not satisfying it (count(*) filter (where ..)), so the quantifier never yields null for a non-null list.
+	QuantifierPredicateNullCountsAsFalse bool
 	// ArithmeticAndSumCoerceProperty: a property operand of + - * / % and the argument of sum()/avg() are read as text
 	// and cast to a number.
 	ArithmeticAndSumCoerceProperty bool
@@ -562,7 +577,11 @@ func (e *Evaluator) compareOp(op cypher.Operator, l, r any) (tri, error) {
 				return triNull, unknown("regular expression outside the common subset")
 			}
 		}
-		re, err := regexp.Compile("^(?:" + rs + ")$")
+		anchored := "^(?:" + rs + ")$"
+		if e.Dev.RegexMatchIsUnanchored {
+			anchored = rs
+		}
+		re, err := regexp.Compile(anchored)
 		if err != nil {
 			return triNull, unknown("regular expression")
 		}
@@ -731,6 +750,9 @@ func (e *Evaluator) quantifier(q *cypher.Quantifier, env Env) (any, error) {
 		}
 	}
 	n := len(list)
+	if e.Dev.QuantifierPredicateNullCountsAsFalse {
+		nNull = 0
+	}
 	switch q.Type {
 	case cypher.QuantifierTypeAny:
 		if nTrue > 0 {
